@@ -1,5 +1,139 @@
 package main
 
-import "fmt"
+import (
+	"encoding/json"
+	"flag"
+	"fmt"
+	"os"
+	"path/filepath"
 
-func (d *storeDrv) migrate(op absOp) error { return fmt.Errorf("migrate: not built yet") }
+	"github.com/BlackVectorOps/semantic_firewall/v3/pkg/detection"
+	"github.com/BlackVectorOps/semantic_firewall/v3/pkg/storage/jsondb"
+)
+
+// migrate (C18): encode the op's signature list as a JSON signature file,
+// optionally cut it to a byte prefix, hand it to MigrateFromJSON and log the
+// result together with the state listing observed afterwards.
+func (d *storeDrv) migrate(op absOp) error {
+	if d.backend != "pebble" {
+		return fmt.Errorf("migrate: pebble only")
+	}
+	var evs []map[string]any
+	var list []detection.Signature
+	rids := []string{}
+	for _, a := range op.Sigs {
+		ver, sig := d.newVer(a)
+		evs = append(evs, absEv(a, ver))
+		list = append(list, *sig)
+		rids = append(rids, a.ID)
+	}
+	doc := map[string]any{
+		"version":     "2.1",
+		"description": "verif generated — ünïcode",
+		"signatures":  list,
+		"trailer":     map[string]any{"k": []int{1, 2, 3}},
+	}
+	if list == nil {
+		doc["signatures"] = []detection.Signature{}
+	}
+	data, err := json.MarshalIndent(doc, "", " ")
+	if err != nil {
+		return err
+	}
+	// encoding/json sorts map keys: description, signatures, trailer, version
+	complete := true
+	if op.Cut != nil {
+		cut := *op.Cut
+		if cut < 0 {
+			cut = len(data) + cut
+		}
+		if cut < 0 {
+			cut = 0
+		}
+		if cut < len(data) {
+			data = data[:cut]
+			complete = false
+		}
+	}
+	path := filepath.Join(filepath.Dir(d.expPath), "migrate.json")
+	if err := os.WriteFile(path, data, 0o600); err != nil {
+		return err
+	}
+	n, merr := d.peb.MigrateFromJSON(path)
+	post, xerr := d.exportPebble()
+	if xerr != nil {
+		return fmt.Errorf("export after migrate: %w", xerr)
+	}
+	if evs == nil {
+		evs = []map[string]any{}
+	}
+	d.tw.emit(map[string]any{"ev": "migrate", "sigs": evs, "rids": rids, "complete": complete,
+		"n": n, "err": merr != nil, "post": d.projList(post), "bytes": len(data)})
+	return nil
+}
+
+// migrate-len prints the encoded length of a signature list (so that the
+// orchestrator can enumerate every truncation point).
+func init() {
+	register("migrate-len", func(args []string) error {
+		fs := flag.NewFlagSet("migrate-len", flag.ExitOnError)
+		planPath := fs.String("plan", "", "plan with one history of one migrate op")
+		fs.Parse(args)
+		var plan storePlan
+		if err := readJSON(*planPath, &plan); err != nil {
+			return err
+		}
+		d := &storeDrv{backend: "pebble", nm: newNameMap(), plan: &plan}
+		var out []int
+		for _, h := range plan.Histories {
+			for _, st := range h {
+				if st.Op.Op != "migrate" {
+					continue
+				}
+				d.vers = nil
+				var list []detection.Signature
+				for _, a := range st.Op.Sigs {
+					_, sig := d.newVer(a)
+					list = append(list, *sig)
+				}
+				doc := map[string]any{"version": "2.1", "description": "verif generated — ünïcode",
+					"signatures": list, "trailer": map[string]any{"k": []int{1, 2, 3}}}
+				if list == nil {
+					doc["signatures"] = []detection.Signature{}
+				}
+				data, _ := json.MarshalIndent(doc, "", " ")
+				out = append(out, len(data))
+			}
+		}
+		b, _ := json.Marshal(out)
+		fmt.Println(string(b))
+		return nil
+	})
+	register("json-save", jsonSave)
+}
+
+// json-save (C18, atomic save clause): run under strace by the orchestrator.
+// Loads <path> (old content), adds signatures, saves to the same path.
+func jsonSave(args []string) error {
+	fs := flag.NewFlagSet("json-save", flag.ExitOnError)
+	path := fs.String("path", "", "database file")
+	n := fs.Int("n", 50, "signatures to add")
+	fs.Parse(args)
+	s := jsondb.NewScanner()
+	if _, err := os.Stat(*path); err == nil {
+		if err := s.LoadDatabase(*path); err != nil {
+			return err
+		}
+	}
+	nm := newNameMap()
+	for i := 0; i < *n; i++ {
+		sig := payload(i, nm, absSig{ID: fmt.Sprintf("s%d", i), Topo: "tA", Fuzzy: "fX", Ent: 163840, Tol: 0})
+		if err := s.AddSignature(&sig); err != nil {
+			return err
+		}
+	}
+	fmt.Fprintln(os.Stderr, "VERIF-SAVE-BEGIN")
+	err := s.SaveDatabase(*path)
+	fmt.Fprintln(os.Stderr, "VERIF-SAVE-END")
+	return err
+}
